@@ -57,3 +57,87 @@ Example io_refutation_world_is_history_independent_once_repaired :
   snd (inproc_after repaired Wref [Load KMat 0%nat] (Load KVec 1%nat) fsref) = (1001, [Matlab])
   /\ snd (inproc_after repaired Wref [Load KMat 2%nat] (Load KMat 3%nat) fsref) = (139, [Bin]).
 Proof. vm_compute. split; reflexivity. Qed.
+
+(* ======================= object state machines (Geom/GeomState.v, SensorsState.v, MeshState.v) ======================= *)
+From OM Require Import Geom.GeomState Geom.SensorsState Geom.MeshState Geom.StateProofs.
+
+(* Geometry: [g_last fixed W h o] = public observation (status, #vertices, #meshes, #domains, nb_parameters,
+   #communicating pairs, #isolated parts, #invalid vertices, nb_current_barrier_triangles, nested) of operation o after
+   history h on a fresh object; fixed = true is the code after the fix: commit (clear() resets the derived containers) *)
+Theorem geometry_history_independent : forall W h i, g_last true W h (GLoad i) = g_last true W [] (GLoad i).
+Proof. exact geometry_last_lemma. Qed.
+Print Assumptions geometry_history_independent.
+
+Theorem geometry_everything_after_a_load_is_history_independent : forall W h i t,
+  g_trace true W (GLoad i :: t) (g_run true W h gst0) = g_trace true W (GLoad i :: t) gst0.
+Proof. exact geometry_history_independent_lemma. Qed.
+Print Assumptions geometry_everything_after_a_load_is_history_independent.
+
+Theorem geometry_reload_pinned_refuted : exists W h o, g_last false W h o <> g_last false W [] o.
+Proof. exists Gref, [GLoad 0%nat], (GLoad 0%nat). exact (proj1 geometry_reload_pinned_refuted_lemma). Qed.
+Print Assumptions geometry_reload_pinned_refuted.
+
+Theorem geometry_stale_invalid_vertices_pinned_refuted : exists W h o,
+  nth 4 (g_last false W h o) 0 <> nth 4 (g_last false W [] o) 0.
+Proof. exists Gref, [GLoad 1%nat], (GLoad 2%nat). destruct geometry_stale_invalid_pinned_refuted_lemma as [-> ->]. discriminate. Qed.
+Print Assumptions geometry_stale_invalid_vertices_pinned_refuted.
+
+Theorem assemble_twice_equal : forall fixed W s n,
+  g_trace fixed W (repeat GHeadMat (S n)) s = repeat (snd (g_step fixed W GHeadMat s)) (S n).
+Proof. exact assemble_twice_lemma. Qed.
+Print Assumptions assemble_twice_equal.
+
+Theorem headmat_after_reload_pinned_refuted_repaired_equal :
+  snd (g_step false Gref GHeadMat (g_run false Gref [GLoad 0%nat; GLoad 0%nat] gst0)) <> snd (g_step false Gref GHeadMat (g_run false Gref [GLoad 0%nat] gst0))
+  /\ snd (g_step true Gref GHeadMat (g_run true Gref [GLoad 0%nat; GLoad 0%nat] gst0)) = snd (g_step true Gref GHeadMat (g_run true Gref [GLoad 0%nat] gst0)).
+Proof. exact headmat_after_reload_lemma. Qed.
+Print Assumptions headmat_after_reload_pinned_refuted_repaired_equal.
+
+(* Sensors: observation = exception class, or (m_nb, #positions, #orientation rows, #weights, #radii, #injection lists,
+   hasNames, names, m_pointSensorIdx) *)
+Theorem sensors_history_independent : forall geom W h i, s_last true geom W h i = s_last true geom W [] i.
+Proof. exact sensors_history_independent_lemma. Qed.
+Print Assumptions sensors_history_independent.
+
+Theorem sensors_reload_pinned_refuted : exists geom W h i, s_last false geom W h i <> s_last false geom W [] i.
+Proof. exists false, Sref, [0%nat], 0%nat. exact (proj1 sensors_reload_pinned_refuted_lemma). Qed.
+Print Assumptions sensors_reload_pinned_refuted.
+
+Theorem sensors_stale_orientations_pinned_refuted : exists geom W h i,
+  nth 3 (s_last false geom W h i) 0 <> nth 3 (s_last false geom W [] i) 0.
+Proof. exists false, Sref, [0%nat], 1%nat. destruct sensors_stale_orientations_pinned_refuted_lemma as [-> ->]. discriminate. Qed.
+Print Assumptions sensors_stale_orientations_pinned_refuted.
+
+(* Mesh (stand-alone): m_repaired = the current code (flags reset by clear(), private geometry kept) *)
+Theorem mesh_reload_triangle_indices_refuted : exists W h o, m_last m_repaired W h o <> m_last m_repaired W [] o.
+Proof. exists Mref, [MLoad 0%nat], (MLoad 1%nat). exact (proj1 mesh_reload_refuted_lemma). Qed.
+Print Assumptions mesh_reload_triangle_indices_refuted.
+
+Theorem mesh_reload_partial : forall c W h i,
+  y_gverts (m_run c W h mst0) = [] -> clear_flags c = true -> m_last c W h (MLoad i) = m_last c W [] (MLoad i).
+Proof. exact mesh_partial_lemma. Qed.
+Print Assumptions mesh_reload_partial.
+
+Theorem mesh_flags_history_independent : forall W h i,
+  let s := fst (m_step m_repaired W (MLoad i) (m_run m_repaired W h mst0)) in
+  y_outer s = false /\ y_cb s = false /\ y_iso s = false.
+Proof. exact mesh_flags_lemma. Qed.
+Print Assumptions mesh_flags_history_independent.
+
+Theorem mesh_history_independent_if_private_geometry_cleared : forall W h i, m_last m_ideal W h (MLoad i) = m_last m_ideal W [] (MLoad i).
+Proof. exact mesh_ideal_lemma. Qed.
+Print Assumptions mesh_history_independent_if_private_geometry_cleared.
+
+Theorem mesh_source_flag_pinned_refuted :
+  nth 5 (m_last m_pinned Mref [MLoad 0%nat; MSurfSource] (MLoad 0%nat)) 0 <> nth 5 (m_last m_pinned Mref [] (MLoad 0%nat)) 0
+  /\ m_last m_repaired Mref [MLoad 0%nat; MSurfSource] (MLoad 0%nat) = m_last m_repaired Mref [] (MLoad 0%nat).
+Proof. destruct mesh_source_flag_pinned_refuted_lemma as (-> & -> & H). split; [discriminate | exact H]. Qed.
+Print Assumptions mesh_source_flag_pinned_refuted.
+
+Theorem surfsource_assemble_twice_equal : forall c W s,
+  hd 0 (snd (m_step c W MSurfSource (fst (m_step c W MSurfSource s)))) = hd 0 (snd (m_step c W MSurfSource s)).
+Proof. exact surfsource_twice_lemma. Qed.
+Print Assumptions surfsource_assemble_twice_equal.
+
+Example mesh_partial_hypothesis_satisfiable : y_gverts (m_run m_repaired Mref [] mst0) = [] /\ clear_flags m_repaired = true.
+Proof. split; reflexivity. Qed.
